@@ -168,3 +168,62 @@ func VH_C10_close() {
 		vAssert("C10.close.control", db3.Control() == nil)
 	}
 }
+
+// VH_C10_two: two asynchronous collections on one handle.  FlushAll /
+// FlushAllAndCommit act on their collection only (and completely); the
+// flusher of one collection is driven by that collection's own pending
+// count; Close writes everything of both and commits both schemas.
+func VH_C10_two() {
+	root := vTempDir()
+	db := Open(root)
+	thrA := vInt("thrA")
+	vAssume(vAnd(thrA >= 1, thrA <= 4))
+	vAssert("C10.two.create_a", db.Create(&vObj{}, vhAsyncSchema(thrA, time.Hour)) == nil)
+	vAssert("C10.two.create_b", db.Create(&vRich{}, vhAsyncSchema(1000, time.Hour)) == nil)
+	var rows []vhRow
+	var rich []vhRichRow
+	na := vLen("na", 1, 2)
+	for k := 0; k < na; k++ {
+		o := vhNewObj()
+		vAssert("C10.two.insert_a", db.InsertOrUpdate(o) == nil)
+		rows = append(rows, vhRow{o.UUID(), *o})
+	}
+	for k := 0; k < 2; k++ {
+		r := vhNewRich(k, "")
+		vAssert("C10.two.insert_b", db.InsertOrUpdate(r) == nil)
+		rich = append(rich, vhRichRow{r.UUID(), vhRichStored(r)})
+	}
+	richPath := func(u string) string { return root + "/sod.vRich/" + u + ".json" }
+	switch vChoice("how", 3) {
+	case 0: // FlushAllAndCommit of the first collection only
+		vAssert("C10.two.flush_a", db.FlushAllAndCommit(&vObj{}) == nil)
+		for i := range rows {
+			vAssert("C10.two.a_on_disk", vFileExists(vhObjPath(root, rows[i].uuid)))
+		}
+		fresh := Open(root)
+		vhCheckReads("C10.two.a_fresh_handle", fresh, rows)
+	case 1: // one poll of the flushers: each looks at its own pending count
+		vRunSpawned(1)
+		for i := range rows {
+			vAssert("C10.two.a_flushed_iff_threshold", vFileExists(vhObjPath(root, rows[i].uuid)) == (na >= thrA))
+		}
+		for i := range rich {
+			vAssert("C10.two.b_still_pending", !vFileExists(richPath(rich[i].uuid)))
+		}
+	case 2:
+	}
+	// pending or not, every read sees everything
+	vhCheckReads("C10.two.a_visible", db, rows)
+	vhRichReads("C10.two.b_visible", db, rich)
+	vAssert("C10.two.close", db.Close() == nil)
+	for i := range rows {
+		vAssert("C10.two.close.a_on_disk", vFileExists(vhObjPath(root, rows[i].uuid)))
+	}
+	for i := range rich {
+		vAssert("C10.two.close.b_on_disk", vFileExists(richPath(rich[i].uuid)))
+	}
+	db2 := Open(root)
+	vhCheckReads("C10.two.reopen_a", db2, rows)
+	vhRichReads("C10.two.reopen_b", db2, rich)
+	vAssert("C10.two.reopen_control", db2.Control() == nil)
+}
